@@ -316,7 +316,15 @@ func genModelFontOpt(rng *rand.Rand, nested bool) *modelFont {
 	}
 	// FontMatrix (default when absent)
 	want.FontInfo.FontMatrix = matrix.Matrix{0.001, 0, 0, 0.001, 0, 0}
-	switch rng.IntN(4) {
+	switch rng.IntN(6) {
+	case 4:
+		w.FontMatrix = []string{"0", "0.001", "-0.001", "0", "0", "0"}
+		want.FontInfo.FontMatrix = matrix.Matrix{0, 0.001, -0.001, 0, 0, 0}
+		mf.feat["font matrix with a zero diagonal"] = true
+	case 5:
+		w.FontMatrix = []string{"-0.00025", "0.5", "-2", "0.0625", "-7.5", "1e3"}
+		want.FontInfo.FontMatrix = matrix.Matrix{-0.00025, 0.5, -2, 0.0625, -7.5, 1000}
+		mf.feat["general font matrix"] = true
 	case 0:
 	case 1:
 		w.FontMatrix = []string{"0.001", "0", "0", "0.001", "0", "0"}
@@ -627,6 +635,9 @@ func runC06(r *rt.Runner) {
 			}
 			c.Count("container " + mf.lay.Container)
 			c.Count(fmt.Sprintf("lenIV %d", mf.lay.LenIV))
+			if mf.lay.DeepChains > 0 {
+				c.Count("feature: subroutine calls nested 10 deep")
+			}
 			if len(mf.lay.Subrs) > 0 {
 				c.Count("fonts with subroutines")
 			}
